@@ -387,4 +387,14 @@ def c01_f(ctx: Ctx):
     return out
 
 
-RULES = [c01_a, c01_b, c01_c, c01_d, c01_e, c01_f]
+@rule("C01-g")
+def c01_g(ctx: Ctx):
+    """A state point is entered into the project's cache only under the id it hashes to: the setter registers after a *successful* re-key (from C08-d)."""
+    from .c08 import c08_d
+    res = [r for r in c08_d(ctx) if "statepoint.setter" in (r.function or "")]
+    for r in res:
+        r.rule = "C01-g"
+    return res
+
+
+RULES = [c01_a, c01_b, c01_c, c01_d, c01_e, c01_f, c01_g]
